@@ -5,44 +5,87 @@ Import ListNotations.
 From CK Require Import Base.
 From CK Require Import Circ.
 From CK Require Import OpsSimple.
+From CK Require Import Scalar.
+From CK Require Import Tensor.
+From CK Require Import Pexpr.
+From CK Require Import Exec.
+From CK Require Import Ops.
+From CK Require Import Struct.
+From CK Require Import Link.
+From CK Require Import Link2.
 Close Scope Qc_scope. Close Scope Q_scope. Close Scope Z_scope. Open Scope nat_scope.
 
 (* the evidence circuit evaluated at y equals the original circuit evaluated at y overridden by the observation, for every circuit whose inputs depend only on their scope *)
 Theorem C06_evidence :
   forall (R : Type) (rO : R) (radd rmul : R -> R -> R) (D : Type) (obs : obs_t D) (c : list (node R D)),
-         (forall i : inp R D, In (NIn R D i) c -> forall y : asg D, length (ifun R D i y) = iunits R D i) ->
+         (forall i : inp R D, In (NIn R D i) c -> forall y : Base.asg D, length (ifun R D i y) = iunits R D i) ->
          (forall i : inp R D,
           In (NIn R D i) c ->
-          forall k : nat, dep_on R D (iscope R D i) (fun y : asg D => nth k (ifun R D i y) rO)) ->
-         forall y : asg D,
-         eval R rO radd rmul D (evidence R D obs c) y = eval R rO radd rmul D c (override D y obs).
+          forall k : nat, dep_on R D (iscope R D i) (fun y : Base.asg D => nth k (ifun R D i y) rO)) ->
+         forall y : Base.asg D,
+         eval R rO radd rmul D (evidence R D obs c) y = eval R rO radd rmul D c (OpsSimple.override D y obs).
 Proof. exact evidence_correct. Qed.
 Print Assumptions C06_evidence.
 
 (* every scope of the evidence circuit is the original scope minus the observed variables *)
 Theorem C06_evidence_scope :
-  forall (R D : Type) (obs : obs_t D) (c : circuit R D),
-         scopes R D (evidence R D obs c) =
-         map (filter (fun v : nat => negb (mem v (map fst obs)))) (scopes R D c).
+  forall (R D : Type) (obs : obs_t D) (c : Circ.circuit R D),
+         Circ.scopes R D (evidence R D obs c) =
+         map (filter (fun v : nat => negb (mem v (map fst obs)))) (Circ.scopes R D c).
 Proof. exact evidence_scopes. Qed.
 Print Assumptions C06_evidence_scope.
 
 (* evaluating the concatenation yields the operands' values one after the other, in the given order *)
 Theorem C06_concatenate :
-  forall (R : Type) (rO : R) (radd rmul : R -> R -> R) (D : Type) (cs : list (circuit R D)) (y : asg D),
-         (forall c : circuit R D, In c cs -> wsc R D c) ->
+  forall (R : Type) (rO : R) (radd rmul : R -> R -> R) (D : Type) (cs : list (Circ.circuit R D))
+           (y : Base.asg D),
+         (forall c : Circ.circuit R D, In c cs -> OpsSimple.wsc R D c) ->
          eval R rO radd rmul D (concat_all R D cs) y =
-         concat (map (fun c : circuit R D => eval R rO radd rmul D c y) cs).
+         concat (map (fun c : Circ.circuit R D => eval R rO radd rmul D c y) cs).
 Proof. exact concat_all_correct. Qed.
 Print Assumptions C06_concatenate.
 
 (* output o of operand m is found at offset m + o and equals the operand evaluated alone *)
 Theorem C06_concatenate_nth :
-  forall (R : Type) (rO : R) (radd rmul : R -> R -> R) (D : Type) (cs : list (circuit R D)) 
-           (y : asg D) (m o : nat),
-         (forall c : circuit R D, In c cs -> wsc R D c) ->
+  forall (R : Type) (rO : R) (radd rmul : R -> R -> R) (D : Type) (cs : list (Circ.circuit R D))
+           (y : Base.asg D) (m o : nat),
+         (forall c : Circ.circuit R D, In c cs -> OpsSimple.wsc R D c) ->
          o < length (nth m cs []) ->
          nth (offset R D cs m + o) (eval R rO radd rmul D (concat_all R D cs) y) [] =
          nth o (eval R rO radd rmul D (nth m cs []) y) [].
 Proof. exact concat_all_nth. Qed.
 Print Assumptions C06_concatenate_nth.
+
+(* EXECUTABLE level, every layer kind, no structural hypothesis: the circuit returned by evidence_m (model of cirkit.symbolic.functional.evidence) evaluated at y has, node by node, the values of the original circuit at y overridden by the observation *)
+Theorem C06_evidence_executable :
+  forall (obs : asg) (c c' : circuit) (y : asg),
+         evidence_m obs c = Ok c' -> den_all c' y = den_all c (override obs y).
+Proof. exact evidence_exec_den. Qed.
+Print Assumptions C06_evidence_executable.
+
+(* ... and on the algebraic fragment this is the semantic evidence operator of C06_evidence *)
+Theorem C06_evidence_executable_semantic :
+  forall (obs : asg) (c c' : circuit) (y : asg),
+         frag c = true ->
+         evidence_m obs c = Ok c' ->
+         den_all c' y =
+         (if inrange c (override obs y) then Some (SEval (SEvidence obs (interp c)) (afun y)) else None).
+Proof. exact evidence_exec_sem. Qed.
+Print Assumptions C06_evidence_executable_semantic.
+
+(* EXECUTABLE level, every layer kind: the node values of concatenate_m cs are the operands' node values one after the other *)
+Theorem C06_concatenate_executable :
+  forall (cs : list circuit) (c' : circuit) (y : asg),
+         concatenate_m cs = Ok c' ->
+         den_all c' y = option_map (concat (A:=cvec)) (omap (fun c : circuit => den_all c y) cs).
+Proof. exact concatenate_exec_den. Qed.
+Print Assumptions C06_concatenate_executable.
+
+(* the outputs of concatenate_m cs are the operands' outputs in order, provided each operand's outputs are valid node indices (sharp: Link2.Example2.ex_cat_sharp) *)
+Theorem C06_concatenate_executable_outputs :
+  forall (cs : list circuit) (c' : circuit) (y : asg),
+         Forall outs_ok cs ->
+         concatenate_m cs = Ok c' ->
+         den c' y = option_map (concat (A:=cvec)) (omap (fun c : circuit => den c y) cs).
+Proof. exact concatenate_exec_outs. Qed.
+Print Assumptions C06_concatenate_executable_outputs.
